@@ -41,7 +41,11 @@ KeySeqs(ks, m) ==
 Zip(ks, vs) == [i \in DOMAIN ks |-> <<ks[i], vs[i]>>]
 
 (* The candidate sets are tabulated bottom-up (TLCEval forces each table once; a plain
-   recursive definition would recompute the lower levels exponentially often). *)
+   recursive definition would recompute the lower levels exponentially often).  Unions of
+   many sets are folded with \cup: TLC's UNION tests membership by linear search. *)
+RECURSIVE CupFold(_, _, _)
+CupFold(F(_), lo, hi) == IF lo > hi THEN {} ELSE F(lo) \cup CupFold(F, lo + 1, hi)
+
 W == 0..Budget
 LeafTab == [w \in W |-> IF w = 1 THEN CoreLeaves ELSE IF w = 2 THEN ExoticLeaves ELSE {}]
 
@@ -52,7 +56,7 @@ SeqTabs(T, m) ==
     ELSE LET p    == SeqTabs(T, m - 1)
              last == p[m]
          IN  Append(p, TLCEval([w \in W |->
-                 UNION {{<<x>> \o s : x \in T[a], s \in last[w - a]} : a \in 1..w}]))
+                 CupFold(LAMBDA a : {<<x>> \o s : x \in T[a], s \in last[w - a]}, 1, w)]))
 
 \* values by weight one level further up: the leaves, and lists / dicts over the values of T
 Up(T, keys) ==
@@ -60,9 +64,9 @@ Up(T, keys) ==
     IN  TLCEval([w \in W |->
             IF w = 0 THEN {}
             ELSE LeafTab[w]
-                 \cup UNION {{ListV(s) : s \in st[m + 1][w - 1]} : m \in 0..(w - 1)}
-                 \cup UNION {{DictV(Zip(ks, s)) : ks \in KeySeqs(keys, m), s \in st[m + 1][w - 1]} :
-                               m \in 0..(w - 1)}])
+                 \cup CupFold(LAMBDA m : {ListV(s) : s \in st[m + 1][w - 1]}, 0, w - 1)
+                 \cup CupFold(LAMBDA m : {DictV(Zip(ks, s)) : ks \in KeySeqs(keys, m), s \in st[m + 1][w - 1]},
+                              0, w - 1)])
 RECURSIVE TabAt(_)
 \* values by weight, d container levels below the root
 TabAt(d) == IF d = MaxDepth THEN LeafTab ELSE Up(TabAt(d + 1), NestKeys)
@@ -77,10 +81,13 @@ MCFixedTrees ==
       DictV(<< <<S(<<"_">>), DictV(<< <<S(<<"=">>), IntV(1)>> >>)>> >>),
       DictV(<< <<S(<<"x","m","l">>), FloatH(-1)>>, <<S(<<"A">>), S(<<"a">>)>>, <<S(<<"a">>), S(<<"A">>)>> >>) }
 
-MCGrowKeys == RootKeys
-\* candidate values of a top-level entry, by weight
-\* (TLCEval: an explicit function; a lazy one would rebuild the tables at every application)
-MCGrowVals == TLCEval([w \in 1..Budget |-> TabAt(0)[w]])
+\* all trees of weight <= Budget below the root, and the fixed ones
+MCTrees ==
+    LET rt == SeqTabs(TabAt(0), Budget)
+    IN  CupFold(LAMBDA m : {DictV(Zip(ks, s)) : ks \in KeySeqs(RootKeys, m),
+                                                s \in CupFold(LAMBDA w : rt[m + 1][w], m, Budget)},
+                0, Budget)
+        \cup MCFixedTrees
 
 \* the plan: every format, every option value, and two loads with the wrong root tag
 O == DefaultOpts
